@@ -188,7 +188,8 @@ Definition merge_entry (f : nat) (thop ohtp changed : bool) (b : option entry) (
         end
     end in
   (ent,
-   (if pc then [CPath f] else []) ++
+   (* cook_conflicts drops a path conflict when the same file also has a contents conflict *)
+   (if pc && negb (match r with RConflict => true | _ => false end) then [CPath f] else []) ++
    match r with
    | RText _ true => [CText f]
    | RConflict => [CContents f]
@@ -262,6 +263,13 @@ Definition entry_lca (U : list nat) (B : tree) (Ls : list tree) (O T : tree) (f 
 Definition visit (U : list nat) (B : tree) (Ls : list tree) (O T : tree) (f : nat) :=
   if lm then entry_lca U B Ls O T f else entry3 U B O T f.
 
+(* the tt.adjust_path target recorded for f, if f is processed at all *)
+Definition adj_of (U : list nat) (B : tree) (Ls : list tree) (O T : tree) (f : nat) : option (nat * bytes) :=
+  match visit U B Ls O T f with
+  | None => None
+  | Some _ => fst (merge_names (B f) (if lm then map (fun L : tree => L f) Ls else []) (O f) (T f))
+  end.
+
 (* U: the file ids in play (every id of the trees involved) *)
 Definition merge_tree (U : list nat) (B : tree) (Ls : list tree) (O T : tree) : tree * list conflict :=
   (fun f => if existsb (Nat.eqb f) U
@@ -291,6 +299,19 @@ Definition wf_tree (U : list nat) (R : tree) : bool :=
                                                    && bytes_eqb (e_name e') (e_name e))
                                 | None => true
                                 end) U
+    end) U.
+
+(* TreeTransform.apply raises NoFinalPath (candidate finding, notes/C17.md): some entry was given a new
+   name inside a directory p that has no name in the transform (not in THIS, not adjusted by the merge)
+   while nothing with contents lives in p (so that no "missing parent" conflict names it either) *)
+Definition no_final_path (U : list nat) (adj : nat -> option (nat * bytes)) (T R : tree) : bool :=
+  existsb (fun f =>
+    match adj f with
+    | Some (p, _) =>
+        negb (Nat.eqb p 0) && negb (present (T p))
+        && negb (match adj p with Some _ => true | None => false end)
+        && negb (existsb (fun g => match R g with Some e => Nat.eqb (e_parent e) p | None => false end) U)
+    | None => false
     end) U.
 
 (* ---- correspondence run ------------------------------------------------------ *)
@@ -325,9 +346,12 @@ Definition is_assert (c : conflict) : bool := match c with CAssert _ => true | _
 Definition run_case (lm : bool) (tab : list ((bytes * bytes * bytes) * (bytes * bool))) (unm : list nat)
            (U : list nat) (B : list (nat * entry)) (Ls : list (list (nat * entry)))
            (O T : list (nat * entry)) : obs :=
-  let '(R, cs) := merge_tree (tm_table tab) lm (fun f => existsb (Nat.eqb f) unm) U
+  let unmod := fun f => existsb (Nat.eqb f) unm in
+  let '(R, cs) := merge_tree (tm_table tab) lm unmod U
                              (alookup B) (map alookup Ls) (alookup O) (alookup T) in
   if existsb is_assert cs then OE "AssertionError"%string
+  else if no_final_path U (adj_of (tm_table tab) lm unmod U (alookup B) (map alookup Ls) (alookup O) (alookup T))
+                        (alookup T) R then OE "NoFinalPath"%string
   else if negb (wf_tree U R) then OT "fs-conflict"%string
   else OL [OL (flat_map (fun f => match R f with Some e => [entry_obs f e] | None => [] end) U);
            OL (map conflict_obs cs)].
